@@ -65,6 +65,7 @@ class ProgressBar(object):
         self._min_seconds_between_redraws = 0
         self._max_seconds_between_redraws = 1
         self._write_count = 0
+        self._displayed_step = None
 
         if min_seconds_between_redraws > 0:
             self.redraw_freq = None
@@ -224,7 +225,11 @@ class ProgressBar(object):
         if not self._max:
             self._max = self._step
 
-        if self._step == self._max and not self._should_overwrite:
+        if (
+            self._step == self._max
+            and not self._should_overwrite
+            and self._displayed_step == self._step
+        ):
             return
 
         self.set_progress(self._max)
@@ -350,6 +355,7 @@ class ProgressBar(object):
 
         self._last_write_time = time.time()
         self._write_count += 1
+        self._displayed_step = self._step
 
     def _determine_best_format(self):
         verbosity = self._io.verbosity
